@@ -390,3 +390,18 @@ Example reused_id_loses :
   nodup (called_ids (pevs lost_by_reused_id)) = false /\
   c01_no_loss (pevs lost_by_reused_id) = fail "no_loss:lost_before_shutdown".
 Proof. split; [eexists; vm_compute; reflexivity|]. repeat split; vm_compute; reflexivity. Qed.
+
+(* the "late calls return promptly" checker of C02 fails only on blocking events (mutex / condition variable of the processor),
+   which accepted traces do not contain: in the model a call that finds the processor shut down goes straight to its return *)
+Lemma c02_late_walk_pevs : forall tr sr late, c02_late_walk sr late (pevs tr) = true.
+Proof.
+  induction tr as [|[t e] tr IH]; intros sr late; simpl; auto.
+  destruct e; simpl; auto.
+Qed.
+
+Theorem accepted_trace_meets_spec_c02_late_calls_prompt tr : c02_late_calls_prompt (pevs tr) = [].
+Proof. unfold c02_late_calls_prompt. rewrite c02_late_walk_pevs. reflexivity. Qed.
+
+Example late_call_that_waits_fails :
+  c02_late_calls_prompt [PEv 3 (ERetShutdown true); PEv 1 ECallFlush; PBlock 1; PEv 1 (ERetFlush false)] <> [].
+Proof. vm_compute. discriminate. Qed.
